@@ -9,6 +9,7 @@ import Hy.Proofs.Pnq
 import Hy.Proofs.BbrCore
 import Hy.Model.BbrProfiles
 import Hy.Proofs.BbrFilter
+import Hy.Proofs.BbrSampler
 import Hy.Gen.C12Sites
 set_option linter.unusedSimpArgs false
 namespace Hy.Props.C12
@@ -327,5 +328,73 @@ example : Sampler.TimesOk 0 [((800000 : Nat), 1), (900000, 1), (700000, 2), (100
 theorem windowed_filter_not_exact_max :
     (Sampler.WFilter.feed (fun n : Nat => (n : Int)) 0 (Sampler.WFilter.new 0 10) [(10, 0), (9, 2), (5, 3), (1, 11)]).e0
       = (5, 3) := Sampler.windowed_filter_not_exact_max
+
+/-- **sampler_no_panic**: from `newBandwidthSampler` with any window length and queue sizes and any
+    profile switches (overestimate avoidance on/off, reduce-extra-acked on/off), EVERY sequence of the
+    calls the sender makes — OnPacketSent, OnCongestionEvent (any ack time, any acked / lost lists:
+    unknown, duplicate or unordered packet numbers, both lists empty, any bandwidths and round
+    counts), OnAppLimited, ResetMaxAckHeightTracker, RemoveObsoletePackets(any number) — runs to
+    the end without reaching a panic site: every access to the packet map and to the A0-candidate
+    ring is guarded, both BandwidthFromDelta divisors are non-zero, the `lostPackets[len-1]` /
+    `ackedPackets[len-1]` indexes are only evaluated on non-empty lists.
+    Hypotheses (`Call.wellFormed`): packet numbers of sent packets are ≥ −1 and send times are int64
+    values (`monotime.Time`); nothing is assumed about sizes, ack times or event contents. -/
+theorem sampler_no_panic (w m c : Nat) (oa red : Bool) (cs : List Sampler.Call) (hw : ∀ x ∈ cs, x.wellFormed) :
+    let b0 := (if oa then (Sampler.Sampler.new w m c).enableOverestimateAvoidance else Sampler.Sampler.new w m c).setReduceExtraAcked red
+    ∃ b' last', b0.runCalls cs = .ok b' ∧ Sampler.SInv b' last' := by
+  intro b0
+  have h0 : Sampler.SInv b0 (-1) := by
+    apply Sampler.setReduce_sinv
+    split
+    · exact Sampler.enableOA_sinv _ _ (Sampler.new_sinv w m c)
+    · exact Sampler.new_sinv w m c
+  exact Sampler.sampler_no_panic_run cs b0 (-1) h0 hw
+
+/-- a call sequence with a number-space restart, an unknown packet, a loss-only event and an empty event
+    meets the hypotheses -/
+example : ∀ x ∈ ([.sent 1000 0 1280 1280 true, .sent 2000 1 1280 2560 true, .sent 3000 0 1280 3840 true,
+      .event 9000 [(1, 1280), (77, 100)] [(0, 1280)] 0 Sampler.infBandwidth 1, .event 9500 [] [(5, 10)] 0 0 1,
+      .event 9600 [] [] 0 0 1, .appLimited, .removeObsolete 1] : List Sampler.Call), x.wellFormed := by
+  simp [Sampler.Call.wellFormed, Sampler.inI64, Sampler.two63]
+
+/-- the int64 hypothesis on send times is needed in the model (whose fields are unbounded integers):
+    two send times exactly 2^64 ns apart make the send-rate divisor `Bandwidth(Δt)` zero.  In Go the
+    field is an int64, so this records a type invariant, not a restriction of real inputs. -/
+theorem sampler_times_must_be_int64 :
+    (Sampler.Sampler.new 10 4 4).runCalls
+      [.sent 1 0 1200 0 true, .sent 18446744073709551617 1 1200 1200 true, .event 5 [(1, 1200)] [] 0 0 0]
+      = .panic := Sampler.times_must_be_int64
+
+/-- **sampler_entries_bounded**: through layer (a)'s `slots_bound` — run any call sequence, then
+    RemoveObsoletePackets(k): the per-packet records in use number at most `last − k + 1`, where
+    `last` (the last packet number the map accepted) never exceeds the largest packet number
+    announced by OnPacketSent. -/
+theorem sampler_entries_bounded (w m c : Nat) (cs : List Sampler.Call) (hw : ∀ x ∈ cs, x.wellFormed) (k : Int) :
+    ∃ b last b', (Sampler.Sampler.new w m c).runCalls cs = .ok b ∧ last ≤ Sampler.maxSent cs ∧
+      b.removeObsoletePackets k = .ok b' ∧ (b'.map.slotsUsed : Int) ≤ max 0 (last - k + 1) := by
+  obtain ⟨b, last, h1, h2, h3⟩ := Sampler.ghost_le_maxSent w m c cs hw
+  obtain ⟨b', h4, _, h5⟩ := Sampler.removeObsolete_bound b last h2 k
+  exact ⟨b, last, b', h1, h3, h4, h5⟩
+
+/-- **sample_bandwidth_bounded**: the bandwidth of a per-packet sample is a uint64 (≥ 0 by type),
+    is min(send rate, ack rate) and hence never above the send rate measured for that packet -/
+theorem sample_bandwidth_bounded (b : Sampler.Sampler) (t pn : Int) (b' : Sampler.Sampler) (s : Sampler.BandwidthSample)
+    (h : b.onPacketAcknowledged t pn = .ok (b', s)) : s.bandwidth ≤ s.sendRate ∧ s.bandwidth ≤ Sampler.maxU64 :=
+  Sampler.sample_bandwidth_le_sendRate b t pn b' s h
+
+/-- the rates are the truncating quotients of the definition: without wrap-around
+    BandwidthFromDelta(bytes, Δt) = bytes·10^9/Δt·8 bits per second -/
+theorem rate_definition (bytes delta : Nat) (hd : 0 < delta) (hd2 : delta < 2^63)
+    (hb : bytes * 1000000000 < 2^64) (hr : bytes * 1000000000 / delta * 8 < 2^64) :
+    Sampler.bandwidthFromDelta (bytes : Int) (delta : Int) = .ok (bytes * 1000000000 / delta * 8) :=
+  Sampler.bandwidthFromDelta_exact bytes delta hd hd2 hb hr
+
+/-- e.g. 125 000 bytes in 100 ms are 10 Mbit/s -/
+example : Sampler.bandwidthFromDelta 125000 100000000 = .ok 10000000 := by decide
+
+/-! `a0Candidates` / recent-ack bookkeeping: the recent ack points are two fixed slots; the number of
+    A0 candidates has no bound proved (one is pushed per aggregation epoch start, they are pruned
+    only when an acked packet's sample chooses its A0 point) — its maximum is MEASURED by the harness
+    (evidence note `max_a0_candidates`). -/
 
 end Hy.Props.C12
